@@ -97,7 +97,8 @@ namespace xsimd
         template <class A, class T>
         XSIMD_INLINE batch_bool<T, A> is_even(batch<T, A> const& self, requires_arch<generic>) noexcept
         {
-            return is_flint(self * T(0.5));
+            // self * 0.5 is exact except for odd multiples of the smallest denormal, which are no integers
+            return is_flint(self) && is_flint(self * T(0.5));
         }
 
         // is_flint
@@ -112,7 +113,8 @@ namespace xsimd
         template <class A, class T>
         XSIMD_INLINE batch_bool<T, A> is_odd(batch<T, A> const& self, requires_arch<generic>) noexcept
         {
-            return is_even(self - T(1.));
+            // not is_even(self - 1): the subtraction rounds beyond 2^24 (2^53), where every value is an even integer
+            return is_flint(self) && !is_flint(self * T(0.5));
         }
 
         // isinf
